@@ -213,8 +213,12 @@ fn mulf_strategy() -> BS<MulF> {
         (3, (-1000i64..=1000, prop::sample::select(vec![1.0f64, 0.5, 0.25, 0.1, 0.01, 0.001, 1e-9])).prop_map(|(k, f)| Fl::of(k as f64 * f)).boxed()),
         (2, (any::<bool>(), 0u64..(1u64 << 53)).prop_map(|(s, m)| { let v = m as f64 / (1u64 << 53) as f64; Fl::of(if s { -v } else { v }) }).boxed()),
         (2, (any::<bool>(), -80i32..10, 0u64..(1u64 << 52)).prop_map(|(s, e, m)| { let v = (1.0 + m as f64 / (1u64 << 52) as f64) * 2f64.powi(e); Fl::of(if s { -v } else { v }) }).boxed()),
+        // exact powers of two (and one ulp either side) from 2^-100 to 2^100: halving, integer-width factors (2^63, 2^64)
+        (2, (any::<bool>(), -100i32..=100, -1i64..=1).prop_map(|(s, e, d)| { let v = f64::from_bits((2f64.powi(e).to_bits() as i64 + d) as u64); Fl::of(if s { -v } else { v }) }).boxed()),
     ]);
-    (count_human(), q, 0u8..2).prop_map(|(d, q, form)| MulF { d, q, form }).boxed()
+    // durations: the human range, plus small odd counts of either sign (where truncation toward zero shows)
+    let d = prop_oneof![6 => count_human(), 1 => (-2_000_000i128..=2_000_000), 1 => pow2_near(68, 3)];
+    (d, q, 0u8..2).prop_map(|(d, q, form)| MulF { d, q, form }).boxed()
 }
 
 fn mulf_oracle(c: &MulF) -> Verdict {
